@@ -314,6 +314,56 @@ def compressed_level(c, impl, vfio):
                     {"tool": "remove_long_lines 1000000000", "case": name, "via": via, "stdin_hex": blob.hex(), "script_on_fd0": sc, "status": st,
                      "got_len": len(out), "want_len": len(wantb)})
 
+    # regular file handed over at a start offset that is not a page multiple, a compressed stream (or plain text,
+    # as control) starting there: the magic must be looked for at the read position, not at the start of the mapping
+    rng = c.rng
+    codecs = {"gz": lambda x: gzip.compress(x, 6), "bz2": lambda x: bz2.compress(x, 1), "xz": lambda x: lzma.compress(x, preset=0),
+              "plain": lambda x: x}
+    ocases = []
+    for off in (1, 10, 5000, P - 1, P + 1, 2 * P + 7, P):
+        for name in sorted(codecs):
+            plain = text_lines(rng, rng.choice((300, 3000, 3 * P)), name)
+            for pname, prefix in (("text", (b"skipped line\n" * (off // 13 + 1))[:off]), ("gzmagic", (b"\x1f\x8b\x08" + b"q" * off)[:off])):
+                if pname == "gzmagic" and (name != "plain" or off < 6):
+                    continue
+                ocases.append(("%s-at-file-offset-%d-after-%s" % (name, off, pname), prefix + codecs[name](plain), off, plain))
+    olines = ["M %d 1 10 1 %d %s %d -" % (P, i % 3, blob.hex(), off) for i, (name, blob, off, plain) in enumerate(ocases)]
+    outs, deaths = run_lines_resilient(impl, olines, 120, None, 3)
+    for idx, rc, err in deaths:
+        c.violation("harness-died: util::FilePiece crashed or hung (rc %s) on %s" % (rc, ocases[idx][0]),
+                    {"case": ocases[idx][0], "file_hex": ocases[idx][1].hex(), "offset": ocases[idx][2]})
+    for (name, blob, off, plain), line, o in zip(ocases, olines, outs):
+        want = py_records(plain)
+        c.count(("Zoff", name), nontrivial=True, bucket="compressed-geometry/" + re.sub(r"-at-file-offset-\d+", "-at-unaligned-file-offset" if off % P else "-at-aligned-file-offset", name))
+        if o is not None:
+            got = parse_out(o)
+            if got is None or got[0] != want or got[3] != "TT":
+                nrec = len(got[0]) if got else 0
+                c.violation("offset-stream-records-differ: FilePiece on a regular file positioned at offset %d (%s): returned %s, the text starting there has %d records" % (
+                    off, name, ("%d records" % nrec) if got else o[:60], len(want)),
+                    {"case": name, "file_hex": blob.hex(), "offset": off, "plain_hex": plain.hex(), "records_got": nrec, "records_want": len(want),
+                     "how": "hx_filepiece <<< 'M %d 1 10 1 0 <file_hex> %d -'   or   (dd bs=%d count=1 >/dev/null; remove_long_lines 1000000000) < file" % (P, off, off)})
+        wantb = b"".join(r + b"\n" for r in want)
+        path = os.path.join(SCRATCH, "zoff.bin")
+        with open(path, "wb") as f:
+            f.write(blob)
+        fd = os.open(path, os.O_RDONLY)
+        try:
+            os.lseek(fd, off, os.SEEK_SET)
+            try:
+                pr = subprocess.run([exe, "1000000000"], stdin=fd, stdout=subprocess.PIPE, stderr=subprocess.PIPE, timeout=25)
+                st, out = pr.returncode, pr.stdout
+            except subprocess.TimeoutExpired:
+                st, out = "timeout", b""
+        finally:
+            os.close(fd)
+        c.count(("Zofftool", name), nontrivial=True, bucket="compressed-geometry/tool-regular-file-at-offset")
+        if st != 0 or out != wantb:
+            c.violation("offset-stream-tool-records: remove_long_lines 1000000000 with stdin = regular file positioned at offset %d (%s): status %s, %d output bytes, expected %d" % (
+                off, name, st, len(out), len(wantb)),
+                {"tool": "remove_long_lines 1000000000", "case": name, "file_hex": blob.hex(), "offset": off, "status": st,
+                 "how": "(dd bs=%d count=1 >/dev/null; remove_long_lines 1000000000) < file" % off})
+
 
 def tool_level(c, have_vfio):
     """bin/remove_long_lines with a huge limit is the identity on records."""
@@ -505,7 +555,7 @@ def main(argv):
     finally:
         shutil.rmtree(SCRATCH, ignore_errors=True)
     return c.finish(level="proof",
-                    rule="read() path: every input over {a,LF,CR} of length <= 8 under every fragmentation with a 2-byte window (page size 1 via the harness's sysconf), the same inputs with other windows/APIs/delimiters/no CR stripping/istream, random records around 1x/2x/4x the window with CR and delimiter on window edges under random Full/Short/EINTR scripts; mmap path: emulated mmap with page sizes 1-8 at every kind of start offset and total size around window multiples, real mmap with the real page size at sizes around page multiples; compressed backings with crafted geometry (gz/bz2/xz member boundaries on and +-1 around every input-buffer refill boundary 6+kInputBuffer*j, first pipe fragment of 1-5 bytes, random short reads across member headers) through the harness and through remove_long_lines; tool level: remove_long_lines 1000000000 over file/pipe/gz/bz2/xz/multi-member. distinct = distinct non-empty cases",
+                    rule="read() path: every input over {a,LF,CR} of length <= 8 under every fragmentation with a 2-byte window (page size 1 via the harness's sysconf), the same inputs with other windows/APIs/delimiters/no CR stripping/istream, random records around 1x/2x/4x the window with CR and delimiter on window edges under random Full/Short/EINTR scripts; mmap path: emulated mmap with page sizes 1-8 at every kind of start offset and total size around window multiples, real mmap with the real page size at sizes around page multiples; compressed backings with crafted geometry (gz/bz2/xz member boundaries on and +-1 around every input-buffer refill boundary 6+kInputBuffer*j, first pipe fragment of 1-5 bytes, random short reads across member headers, gz/bz2/xz/plain streams starting at aligned and unaligned offsets of a regular file) through the harness and through remove_long_lines; tool level: remove_long_lines 1000000000 over file/pipe/gz/bz2/xz/multi-member. distinct = distinct non-empty cases",
                     assumptions=["the OS is an oracle: each read() returns between 1 and the requested number of the next source bytes, or EINTR, and 0 only at end of input (and then for ever)",
                                  "mmap(offset, size>0) of a regular file shows exactly bytes [offset, offset+size) of the file; mmap of size 0 fails; the file does not change while it is read",
                                  "inputs starting with a gzip/bzip2/xz magic number are outside the model (ECompressed); decompressors are property C15",
